@@ -25,6 +25,7 @@ from fractions import Fraction as F
 import numpy as np
 
 import dimod
+import dimod.decorators
 from dimod import BinaryQuadraticModel as BQM
 from dimod.higherorder.polynomial import BinaryPolynomial
 from dimod.higherorder.utils import make_quadratic
@@ -2151,6 +2152,146 @@ def section_histories_models(ctx, r, corr):
                 break
 
 
+class _IndexLabelled(dimod.Sampler):
+    """a sampler that needs index labels: `sample` wrapped by `dimod.decorators.bqm_index_labels`"""
+    properties = None
+    parameters = None
+
+    def __init__(self):
+        self.properties, self.parameters = {}, {}
+
+    @dimod.decorators.bqm_index_labels
+    def sample(self, bqm, **kw):
+        assert list(bqm.variables) == list(range(bqm.num_variables)), list(bqm.variables)
+        return dimod.ExactSolver().sample(bqm)
+
+
+def section_tracking_and_index(ctx, r, corr):
+    """(d) TrackingComposite's log: ONE composite called 2-4 times (sample / sample_ising / sample_qubo, copy False/True), the
+    input mutated in place between the calls: `output` after each call is the returned answer (rows, energies of the CURRENT
+    problem), `outputs` grows by one per call and every EARLIER logged output still carries the energies of the problem of
+    ITS call, `clear()` empties both logs, `input` / `output` before any call raise ValueError.
+    (e) a sampler decorated with `bqm_index_labels` through all three entry points: rows over the problem's own labels."""
+    pool = ['a', 'b', 'c', 'z', 0, 1, 5, ('t', 1)]
+    for hi in range(ctx.scale(150, 2500)):
+        copy = r.random() < .5
+        entry = r.choice(['sample', 'sample_ising', 'sample_qubo'])
+        n = r.randint(1, 4)
+        labels = r.sample(pool, n)
+        spin = entry == 'sample_ising' or (entry == 'sample' and r.random() < .5)
+        lin = {v: dy(r) for v in labels}
+        quad = {p: dy(r) for p in itertools.combinations(labels, 2) if r.random() < .6}
+        off = dy(r) if entry == 'sample' else F(0)
+        lines = [f'S = dimod.TrackingComposite(dimod.ExactSolver(), copy={copy})']
+        if entry == 'sample':
+            lines.append(f'bqm = dimod.BinaryQuadraticModel({ {v: float(b) for v, b in lin.items()}!r}, { {k: float(b) for k, b in quad.items()}!r}, {float(off)!r}, {"SPIN" if spin else "BINARY"!r})')
+            call = 'S.sample(bqm)'
+        elif entry == 'sample_ising':
+            lines += [f'h = { {v: float(b) for v, b in lin.items()}!r}', f'J = { {k: float(b) for k, b in quad.items()}!r}']
+            call = 'S.sample_ising(h, J)'
+        else:
+            lines.append(f'Q = { {**{(v, v): float(b) for v, b in lin.items()}, **{k: float(b) for k, b in quad.items()}}!r}')
+            call = 'S.sample_qubo(Q)'
+        ns = {'dimod': dimod, 'np': np, 'F': F}
+        for ln in lines:
+            exec(ln, ns)
+        S = ns['S']
+        site = f'TrackingComposite.{entry}'
+        for acc in ('input', 'output'):
+            try:
+                getattr(S, acc)
+                ctx.fail('property', f'TrackingComposite.{acc}', 'before any call', 'no ValueError', repro=PRE + '\n'.join(lines) + f'\nS.{acc}\n')
+            except ValueError:
+                pass
+        snapshots = []
+        ok = True
+        nsteps = r.choice([2, 3, 4])
+        for step in range(nsteps):
+            kind = None
+            if step:
+                kind = 'value'
+                v = r.choice(labels)
+                lin[v] += r.choice([F(1), F(-3, 2), F(5, 8), F(-7)])
+                mut = {'sample': f'bqm.set_linear({v!r}, {_fl(lin[v])})', 'sample_ising': f'h[{v!r}] = {_fl(lin[v])}',
+                       'sample_qubo': f'Q[({v!r}, {v!r})] = {_fl(lin[v])}'}[entry]
+                lines.append(mut); exec(mut, ns)
+            lines.append('ss = ' + call)
+            cls = f'copy={copy}: ' + ('first call' if step == 0 else 'same composite object, input mutated in place (value)')
+            ctx.tick(f'tracking log: {entry} copy={copy} call {step + 1}')
+            ctx.case(('tracking-log', tuple(lines)), nontrivial=True)
+            try:
+                exec('ss = ' + call, ns)
+            except Exception as e:  # noqa
+                ctx.fail('property', site, cls, f'{type(e).__name__}: {e}', repro=PRE + '\n'.join(lines) + '\n'); ok = False
+                break
+            prob = _HistProb(labels, lin, quad, off, spin)
+            snapshots.append(prob)
+            what = None
+            if len(S.outputs) != step + 1 or len(S.inputs) != step + 1:
+                what = f'{len(S.inputs)} inputs / {len(S.outputs)} outputs logged after {step + 1} calls'
+            else:
+                for j, (p_j, out_j) in enumerate(zip(snapshots, S.outputs)):
+                    f = predicate(out_j, p_j, cls, exact=list(labels))
+                    if f is not None:
+                        what = f'logged output of call {j + 1} (read after call {step + 1}): {f[1]}'
+                        break
+                if what is None and _rows_exp(rows_of(S.output)) != _rows_exp(rows_of(ns['ss'])):
+                    what = 'S.output differs from the returned sample set'
+                if what is None and copy and S.output is ns['ss']:
+                    what = 'copy=True but the logged output is the returned object'
+                if what is None:
+                    # the logged input is the submitted problem (of that call when copied, the live object otherwise)
+                    inp = S.input
+                    if entry == 'sample':
+                        got = {v: fr(b) for v, b in inp['bqm'].linear.items()}
+                    elif entry == 'sample_ising':
+                        got = {v: fr(b) for v, b in inp['h'].items()}
+                    else:
+                        got = {v: fr(inp['Q'][(v, v)]) for v in labels}
+                    if got != lin:
+                        what = f'S.input holds linear biases {got}, submitted {lin}'
+            if what is not None:
+                ctx.fail('property', site, cls + ': log', what, repro=PRE + '\n'.join(lines) + '\n' + _hist_energy_src(prob) +
+                         'for s, e in zip(S.output.samples(sorted_by=None), S.output.record.energy):\n    assert F(float(e)) == energy({k: F(int(v)) for k, v in s.items()}), (dict(s), e)\n'
+                         f'assert len(S.outputs) == {step + 1} == len(S.inputs)\n', detail=dict(history='\n'.join(lines)))
+                ok = False
+                break
+        if ok and r.random() < .5:
+            S.clear()
+            ctx.tick('tracking log: clear')
+            if S.inputs or S.outputs:
+                ctx.fail('property', 'TrackingComposite.clear', f'copy={copy}', f'{len(S.inputs)} inputs / {len(S.outputs)} outputs left',
+                         repro=PRE + '\n'.join(lines) + '\nS.clear()\nassert not S.inputs and not S.outputs\n')
+    # ---- (e) bqm_index_labels
+    for pi in range(ctx.scale(200, 3000)):
+        prob = BqmProblem(r, nmax=4)
+        entry = r.choice(['sample', 'sample_ising', 'sample_qubo'])
+        src = prob.src()
+        S = _IndexLabelled()
+        pre = ('class S(dimod.Sampler):\n    properties = {}\n    parameters = {}\n    @dimod.decorators.bqm_index_labels\n'
+               '    def sample(self, bqm, **kw):\n        assert list(bqm.variables) == list(range(bqm.num_variables))\n        return dimod.ExactSolver().sample(bqm)\n')
+        if entry == 'sample':
+            call = 'S().sample(BQM)'
+            go = lambda: S.sample(prob.bqm())  # noqa: E731
+        elif entry == 'sample_ising':
+            prob.spin = True; prob.off = F(0); src = prob.src()
+            h = {v: float(b) for v, b in prob.lin.items()}; J = {k: float(b) for k, b in prob.quad.items()}
+            call = f'S().sample_ising({h!r}, {J!r})'
+            go = lambda: S.sample_ising(h, J)  # noqa: E731
+        else:
+            prob.spin = False; prob.off = F(0); src = prob.src()
+            Q = {**{(v, v): float(b) for v, b in prob.lin.items()}, **{k: float(b) for k, b in prob.quad.items()}}
+            call = f'S().sample_qubo({Q!r})'
+            go = lambda: S.sample_qubo(Q)  # noqa: E731
+        ctx.case(('index-labels', pi, entry, prob.vartype, tuple(prob.labels)), nontrivial=len(prob.labels) > 0); ctx.tick(f'bqm_index_labels:{entry}')
+        try:
+            ss = go()
+        except Exception as e:  # noqa
+            ctx.fail('property', 'bqm_index_labels', f'{entry} {type(e).__name__}', f'{type(e).__name__}: {e}', repro=PRE + pre + src + call + '\n')
+            continue
+        validate(ctx, ss, prob, 'bqm_index_labels', f'{entry} {prob.vartype}', pre + src, call, exact=prob.labels if prob.labels else None)
+
+
 def section_pcomp(ctx, r, corr):
     """PolyScaleComposite.sample_poly over the whole `scalar` axis (None, non-zero, and every spelling of zero: 0, 0.0, -0.0,
     False, numpy zeros) x ignored_terms x entry points: refused with ValueError exactly for a zero scalar — then the child is
@@ -2300,6 +2441,7 @@ def run(ctx):
     section_polyscale_zero(ctx)
     section_histories_models(ctx, r, corr)
     section_pcomp(ctx, r, corr)
+    section_tracking_and_index(ctx, r, corr)
     got = run_driver('enumdriver', corr.lines)
     ctx.corr_lines += len(corr.lines)
     for i, ln in enumerate(corr.lines):
